@@ -85,5 +85,9 @@ def run(ctx, rep):
                            '(%s / %s)' % (ri, ru), reason='table-row')
         rep.rows_compared += n
     fillrules.check_fill_queue(ctx, rep, rules=('B-acc', 'X-opsites', 'W-iter'))
+    # the four operations must see the same edges: every non-collapsed edge of every ring becomes exactly one event pair, whatever
+    # the operation (an operation-specific cull of edges reaches process_polygon as an ordinary value - seed s102 - so the taint
+    # rule above cannot see it; the per-edge rule can)
+    fillrules.check_process_polygon(ctx, rep, rules=('S-fill', None, None, None, None))
     sweeprules.check_break(ctx, rep)
     looprules.check_loops(ctx, rep)
